@@ -48,8 +48,8 @@ Definition c13_gen (stream seed i : N) : list tok * list tok :=
 
 Definition c13_run (inp : list tok) : list tok :=
   match inp with
-  | TS "jsonstr" :: TB s :: _ => [TB (esc_string s)]
-  | TS "fmtstr" :: TB s :: _ => [TB (esc_string s)]
+  | TS "jsonstr" :: TB s :: _ => [TB (esc_string_utf8 s)]
+  | TS "fmtstr" :: TB s :: _ => [TB (esc_string_utf8 s)]
   | TS _ :: TS k :: TS _ :: r => fmt_run (kind_of k) empty_prodcfg init_pstate (toks_hist r) 0
   | _ => [TS "badinput"]
   end.
